@@ -97,10 +97,49 @@ func (s *SpokFile) buildGraph(requested ...string) (*dag.Graph[string, task.Task
 	// DAG of tasks using the name as the unique id
 	graph := dag.New[string, task.Task]()
 
-	// TODO: Make this recursive so it will go through dependencies of dependencies
+	// addTask adds the named task as a vertex, then does the same for all the tasks it
+	// depends on (and the tasks they depend on and so on) connecting each to its dependents.
+	// A task that is already in the graph has been (or is being) handled so is left alone,
+	// which also means this terminates when tasks depend on each other in a cycle, the cycle
+	// itself is picked up when the graph is sorted.
+	var addTask func(name string) error
+	addTask = func(name string) error {
+		if graph.ContainsVertex(name) {
+			return nil
+		}
+		current := s.Tasks[name]
+		if err := graph.AddVertex(name, current); err != nil {
+			return fmt.Errorf("could not add vertex for task %s: %w", name, err)
+		}
+
+		for _, dep := range current.TaskDependencies {
+			depTask, ok := s.Tasks[dep]
+			if !ok {
+				closest := s.findClosestMatch(dep)
+				err := fmt.Errorf("Task %q declares a dependency on task %q, which does not exist", current.Name, dep)
+				if closest != "" {
+					// We have a close enough match to do a "did you mean X?"
+					err = fmt.Errorf("Task %q declares a dependency on task %q, which does not exist. Did you mean %q?", current.Name, dep, closest)
+				}
+				return err
+			}
+			s.logger.Debug("Task %s depends on task %s", current.Name, depTask.Name)
+			if err := addTask(dep); err != nil {
+				return err
+			}
+
+			// Now create the dependency connection between the parent task and this one
+			// dep is the parent here because it must be run before the task we're
+			// currently in
+			if err := graph.AddEdge(dep, name); err != nil {
+				return fmt.Errorf("could not add edge %s -> %s: %w", dep, name, err)
+			}
+		}
+		return nil
+	}
+
 	for _, name := range requested {
-		requestedTask, ok := s.Tasks[name]
-		if !ok {
+		if _, ok := s.Tasks[name]; !ok {
 			closest := s.findClosestMatch(name)
 			err := fmt.Errorf("Spokfile has no task %q", name)
 			if closest != "" {
@@ -109,41 +148,8 @@ func (s *SpokFile) buildGraph(requested ...string) (*dag.Graph[string, task.Task
 			}
 			return nil, err
 		}
-		// Add the task as a vertex to the graph if it doesn't already exist
-		if !graph.ContainsVertex(name) {
-			err := graph.AddVertex(name, requestedTask)
-			if err != nil {
-				return nil, fmt.Errorf("could not add vertex for task %s: %w", name, err)
-			}
-		}
-
-		// For all of this tasks dependencies, do the same
-		for _, dep := range requestedTask.TaskDependencies {
-			depTask, ok := s.Tasks[dep]
-			if !ok {
-				closest := s.findClosestMatch(dep)
-				err := fmt.Errorf("Task %q declares a dependency on task %q, which does not exist", requestedTask.Name, dep)
-				if closest != "" {
-					// We have a close enough match to do a "did you mean X?"
-					err = fmt.Errorf("Task %q declares a dependency on task %q, which does not exist. Did you mean %q?", requestedTask.Name, dep, closest)
-				}
-				return nil, err
-			}
-			s.logger.Debug("Task %s depends on task %s", requestedTask.Name, depTask.Name)
-			if !graph.ContainsVertex(dep) {
-				err := graph.AddVertex(dep, depTask)
-				if err != nil {
-					return nil, fmt.Errorf("could not add vertex for task %s: %w", dep, err)
-				}
-			}
-
-			// Now create the dependency connection between the parent task and this one
-			// dep is the parent here because it must be run before the task we're
-			// currently in
-			err := graph.AddEdge(dep, name)
-			if err != nil {
-				return nil, fmt.Errorf("could not add edge %s -> %s: %w", dep, name, err)
-			}
+		if err := addTask(name); err != nil {
+			return nil, err
 		}
 	}
 
@@ -173,6 +179,12 @@ func (s *SpokFile) Run(stream iostream.IOStream, runner shell.Runner, force bool
 	runOrder, err := dag.Sort()
 	if err != nil {
 		return nil, err
+	}
+	// The sort only reports a cycle when every task is part of one, tasks that depend on
+	// each other (or on themselves) next to tasks that don't are simply left out of the
+	// order, so if anything is missing there must be a cycle
+	if len(runOrder) != dag.Order() {
+		return nil, errors.New("Task dependencies contain a cycle, tasks cannot depend on themselves or each other")
 	}
 	names := make([]string, 0, len(runOrder))
 	for _, taskToRun := range runOrder {
